@@ -337,7 +337,7 @@ package wallet
 //
 // ReleaseInputs ends the reservation of every input of the given transactions and of nothing
 // that has not expired.
-//@ func (*SingleAddressWallet).ReleaseInputs props C07
+//@ func (*SingleAddressWallet).ReleaseInputs props C07,C16
 //@   nopanic
 //@   requires sw != nil
 //@   loop "range txns"
